@@ -21,5 +21,5 @@ Separate Extraction
   ReadOnly.start ReadOnly.step_client ReadOnly.step_repl ReadOnly.node_get ReadOnly.tx_get
   ReadOnly.node_scan ReadOnly.node_info ReadOnly.rw_open ReadOnly.any_open ApiView.api_view
   ReplProto.sys_init ReplProto.step ReplProto.settle ReplProto.views_agree ReplProto.scan_of
-  ReplProto.cuts_ok ReplProto.idle ReplProto.good
+  ReplProto.idle ReplProto.good
   BlockView.known_blocked_path BlockView.known_inversion.
